@@ -1,4 +1,5 @@
 (* C12 - Concurrent use from a cold start is race-free and equals sequential use. *)
+From B39 Require Import Proofs.Calls.
 From B39 Require Import Lib.Base Model.GenTypes Model.Model Model.State.
 From B39 Require Import Proofs.Concurrency Proofs.ConcTable Proofs.History Proofs.Inventory.
 
@@ -26,6 +27,11 @@ Proof. exact api_reads_own_map. Qed.
    package-level variable is ever written (closed-world inventory), so all other shared data is read-only *)
 Theorem C12_source_facts : conc_table_wf = true /\ mapping_table_wf = true /\ inventory_ok = true.
 Proof. split; [exact conc_table_wf_holds|split; [exact mapping_table_wf_holds|exact inventory_ok_holds]]. Qed.
+
+(* the functions this property is about, and every package function they reach, call only what the model
+   accounts for (closed world of callees, computed on coq/Gen/Calls.v, regenerated from the source every run) *)
+Theorem C12_callees : all_calls_ok = true.
+Proof. exact all_calls_ok_holds. Qed.
 
 Print Assumptions C12_race_free.
 Print Assumptions C12_reads_own_map.
